@@ -9,6 +9,7 @@ import (
 	"strings"
 
 	"github.com/remieven/ysgo/verifharness/core"
+	"github.com/remieven/ysgo/verifharness/model"
 	"github.com/remieven/ysgo/verifharness/mon"
 )
 
@@ -86,28 +87,29 @@ func (c16) Chunk(tier string) int { return 100 }
 
 func (c16) Thresholds(tier string) map[string]int64 {
 	th := map[string]int64{
-		"signatures":                         2500,
-		"accepted":                           300,
-		"refused":                            400,
-		"must-refuse-checked":                400,
-		"non-function-values-refused":        400,
-		"script-side-calls":                  8000,
-		"calls:matching-arguments":           1500,
-		"calls:wrong-count":                  1500,
-		"calls:wrong-type":                   1500,
-		"calls:number-out-of-range-for-kind": 150,
-		"calls:nan-or-inf-into-integer":      100,
-		"calls:fractional-into-integer":      100,
-		"faithful-conversions-checked":       2000,
-		"variadic-accepted":                  100,
-		"variadic-tail-lengths>=2":           100,
-		"named-parameter-type-accepted":      100,
-		"function-bridge":                    900,
-		"command-bridge":                     900,
-		"command-in-bridge-goroutine":        100,
-		"result:value-converted-back":        150,
-		"result:error-surfaced":              150,
-		"result:nil-channel-is-error":        10,
+		"signatures":                            2500,
+		"accepted":                              300,
+		"refused":                               400,
+		"script-run-after-refused-registration": 300,
+		"must-refuse-checked":                   400,
+		"non-function-values-refused":           400,
+		"script-side-calls":                     8000,
+		"calls:matching-arguments":              1500,
+		"calls:wrong-count":                     1500,
+		"calls:wrong-type":                      1500,
+		"calls:number-out-of-range-for-kind":    150,
+		"calls:nan-or-inf-into-integer":         100,
+		"calls:fractional-into-integer":         100,
+		"faithful-conversions-checked":          2000,
+		"variadic-accepted":                     100,
+		"variadic-tail-lengths>=2":              100,
+		"named-parameter-type-accepted":         100,
+		"function-bridge":                       900,
+		"command-bridge":                        900,
+		"command-in-bridge-goroutine":           100,
+		"result:value-converted-back":           150,
+		"result:error-surfaced":                 150,
+		"result:nil-channel-is-error":           10,
 	}
 	for _, k := range []string{"int", "int8", "int16", "int32", "int64", "float32", "float64", "bool", "string", "MyInt", "MyInt8", "MyFloat", "MyBool", "MyString"} {
 		th["accepted-param:"+k] = 20
@@ -123,7 +125,7 @@ func (c16) Exhaustive(tier string) (bool, string) {
 }
 
 func (c16) Rule() string {
-	return "case = one Go function type built with reflect.FuncOf: 0-3 parameters + optional variadic tail over {int, int8..int64, float32, float64, bool, string, named variants of each kind, uint, uint8, struct, []int, error, *int, func(), any} and 0-2 results over {value kinds, named value kinds, error, a named non-pointer error type, chan error, <-chan error, uint, struct, []int, chan int}; the one-parameter signatures are enumerated completely, the others are PRNG-sampled. The value (a reflect.MakeFunc probe that records what it receives and returns preset results) is registered with ConvertAndAddFunction or ConvertAndAddCommand; non-function values (nil, 3, \"s\", a struct, a typed nil func) are registered too. Unconditional oracle: a signature with a parameter, variadic element or result that has no Yarn counterpart, and every non-function value, is refused with an error, never a panic. Conditional oracle: IF registration succeeded, the function is called FROM SCRIPTS ({f(..)}, <<call f(..)>>, <<cmd ..>>) with argument lists of length 0-4 over {number, boolean, string}: matching count and types => the probe saw the faithfully converted arguments and the script saw the converted result / the sentinel error; otherwise => an error; never a panic (a panic in the bridge goroutine kills the child: detected through the on-disk progress marker and confirmed alone). Numbers into integer kinds: integral and in range => exactly that value; NaN, +-Inf or out of range for the declared kind => an error is required; fractional and in range => error or truncation. Non-trivial: the signature is accepted and has >=1 parameter, or it is in the must-refuse set. Distinct by the signature's string."
+	return "case = one Go function type built with reflect.FuncOf: 0-3 parameters + optional variadic tail over {int, int8..int64, float32, float64, bool, string, named variants of each kind, uint, uint8, struct, []int, error, *int, func(), any} and 0-2 results over {value kinds, named value kinds, error, a named non-pointer error type, chan error, <-chan error, uint, struct, []int, chan int}; the one-parameter signatures are enumerated completely, the others are PRNG-sampled. The value (a reflect.MakeFunc probe that records what it receives and returns preset results) is registered with ConvertAndAddFunction or ConvertAndAddCommand; non-function values (nil, 3, \"s\", a struct, a typed nil func) are registered too. Unconditional oracle: a signature with a parameter, variadic element or result that has no Yarn counterpart, and every non-function value, is refused with an error, never a panic. After a refusal a script that uses the refused name gets an error (never a panic), and a built-in (round / wait) or an earlier host registration under the name the refused value was offered for keeps working. Conditional oracle: IF registration succeeded, the function is called FROM SCRIPTS ({f(..)}, <<call f(..)>>, <<cmd ..>>) with argument lists of length 0-4 over {number, boolean, string}: matching count and types => the probe saw the faithfully converted arguments and the script saw the converted result / the sentinel error; otherwise => an error; never a panic (a panic in the bridge goroutine kills the child: detected through the on-disk progress marker and confirmed alone). Numbers into integer kinds: integral and in range => exactly that value; NaN, +-Inf or out of range for the declared kind => an error is required; fractional and in range => error or truncation. Non-trivial: the signature is accepted and has >=1 parameter, or it is in the must-refuse set. Distinct by the signature's string."
 }
 
 func (c16) Assumptions() []string {
@@ -489,6 +491,62 @@ func tryRegister(rr *mon.Real, command bool, name string, v any) (err error, pan
 	return rr.DR.ConvertAndAddFunction(name, v), ""
 }
 
+// afterRefusal: a refused registration leaves nothing behind. A script that uses the refused name gets
+// the error of an unknown function / command (never a panic), and a name that already had a working
+// function or command (a built-in, or one the host registered before) keeps it.
+func (p c16) afterRefusal(c *core.Ctx, command bool, refusedValue any, detail func(map[string]any) map[string]any) {
+	var script string
+	if command {
+		script = "title: Start\n---\n<<f 1>>\nafter f\n<<wait 0>>\nafter wait\n<<mine 2>>\nafter mine\n===\n"
+	} else {
+		script = "title: Start\n---\n{f(1)}\nafter f\nround {round(2.4)}\nmine {mine(2)}\n===\n"
+	}
+	rr, err, pan := mon.Create(nil, "", []string{script})
+	if err != nil || pan != "" {
+		c.Inconclusive("after-refusal script failed to load")
+		return
+	}
+	mineCalls := 0
+	if command {
+		rr.DR.AddCommand("mine", mon.AdaptCmd(func([]model.Val) error { mineCalls++; return nil }))
+	} else {
+		rr.DR.AddFunction("mine", mon.AdaptFn(func(a []model.Val) (model.Val, bool, error) { mineCalls++; return model.N(7), true, nil }))
+	}
+	builtin := "round"
+	if command {
+		builtin = "wait"
+	}
+	for _, name := range []string{"f", builtin, "mine"} {
+		if e, pn := tryRegister(rr, command, name, refusedValue); e == nil || pn != "" {
+			c.Violate("a signature refused under one name was accepted (or panicked) under the name "+name, detail(map[string]any{"panic": pn}))
+			return
+		}
+	}
+	var trace []string
+	want := []string{"<error>", "after f", "after wait", "after mine"}
+	if !command {
+		want = []string{"<error>", "after f", "round 2", "mine 7"}
+	}
+	for i, w := range want {
+		o := rr.Next(0)
+		trace = append(trace, o.String())
+		ok := o.Kind == mon.KLine && o.Text == w
+		if w == "<error>" {
+			ok = o.Kind == mon.KErr
+		}
+		if !ok {
+			c.Violate(fmt.Sprintf("after a refused registration the script does not run as if nothing had been registered (step %d: want %s, got %s)", i, w, o),
+				detail(map[string]any{"readers": []string{script}, "trace": trace}))
+			return
+		}
+	}
+	if mineCalls != 1 {
+		c.Violate(fmt.Sprintf("the function / command the host had registered before the refused one was invoked %d times, want 1", mineCalls), detail(map[string]any{"readers": []string{script}, "trace": trace}))
+		return
+	}
+	c.Feature("script-run-after-refused-registration")
+}
+
 func (p c16) Run(c *core.Ctx) {
 	r := c.R
 	s := p.pickSig(c)
@@ -577,7 +635,9 @@ func (p c16) Run(c *core.Ctx) {
 		c.Feature("refused")
 		if br == "yes" {
 			c.Violate("a signature whose parameters and results all have Yarn counterparts was refused: "+regErr.Error(), detail(nil))
+			return
 		}
+		p.afterRefusal(c, s.command, probe.Interface(), detail)
 		return
 	}
 	c.Feature("accepted")
